@@ -306,6 +306,56 @@ def assign_sites_prefix(fa, prefix):
     return out
 
 
+def mut_borrow_sites(fa, path):
+    """statements taking `&mut` of the place with dotted path `path` or of something it contains
+    (what `x.take()`, `x.replace(..)`, `mem::swap(&mut x, ..)` start with): [(bb, stmt index)]"""
+    out = []
+    for b in fa.live():
+        for si, st in enumerate(b.stmts):
+            if st["k"] != "assign" or st["rv"]["k"] != "ref" or not st["rv"].get("mut") or st["rv"].get("fake"):
+                continue
+            p = lvalue_path(fa, st["rv"]["place"], b.i, si)
+            if p is None:
+                continue
+            if p == path or p.startswith(path + "."):
+                out.append((b.i, si))
+            elif path.startswith(p + "."):
+                # `&mut whole`: counts when the reference is handed to a call that is still a call
+                # (a spliced helper's accesses show up as borrows of the field itself)
+                tmp = st["place"]["l"]
+                for b2 in fa.live():
+                    t2 = b2.term
+                    if t2["k"] == "call" and any((a.get("m") or a.get("c") or {}).get("l") == tmp for a in t2["args"]):
+                        out.append((b.i, si))
+                        break
+    return out
+
+
+def iteration_deciders(fa, h, body, T):
+    """the branches of the loop (header h, blocks `body`) that decide whether block T runs in an
+    iteration: switch blocks with one successor from which every way back to h (within the loop)
+    passes T, and another from which h is reached again without T.  (T's control dependences
+    relative to "the iteration continues"; exits of the loop / function are not skips.)"""
+    out = []
+    if T == h:
+        return out
+    for S in sorted(body):
+        if S == T or fa.blocks[S].term["k"] != "switch":
+            continue
+        succ = [e for e in fa.succ.get(S, []) if e in body]
+        if len(succ) < 2:
+            continue
+        def back_without(e):
+            return e == h or (e != T and h in fa.reach(e, avoiding=[T], include_src=True))
+        def runs(e):
+            return e == T or T in fa.reach(e, avoiding=[h], include_src=True)
+        must = [e for e in succ if runs(e) and not back_without(e)]
+        skip = [e for e in succ if back_without(e)]
+        if must and skip:
+            out.append((S, must, skip))
+    return out
+
+
 def switch_edges_on(fa, pred):
     """switch terminators whose discriminant origin satisfies pred(term):
     yields (bb, term, {value: target}, otherwise)"""
